@@ -142,6 +142,10 @@ func (s *secureSession) readNextInsecureMsgLen() (int, error) {
 // this function with a buffer of exactly that size.
 func (s *secureSession) readNextMsgInsecure(buf []byte) error {
 	_, err := io.ReadFull(s.insecureReader, buf)
+	if err == io.EOF && len(buf) > 0 {
+		// the length prefix announced a message: the stream ended in the middle of a frame
+		err = io.ErrUnexpectedEOF
+	}
 	return err
 }
 
